@@ -78,6 +78,10 @@ def handle (j : Json) : Except String Json := do
                         ("wf", Json.bool (as.all Arg.wf)),
                         ("py", callToJson (pyCall name as)),
                         ("parse", callToJson (parseCall (render name as)))]
+  | "override" =>
+    let params ← (← (← j.getObjVal? "params").getArr?).toList.mapM pyValOfJson
+    let kw ← envOfJson (← j.getObjVal? "kw")
+    pure (callToJson (parseCallWith (← getStr j "s").toList params kw))
   | "anchors" => pure (Json.mkObj [("classes", anchorsJson)])
   | "safe_eval" =>
     pure (resultToJson (safeEval (← getStr j "s").toList))
